@@ -15,3 +15,14 @@ func verifSmoke() {
 		vReach("rejected")
 	}
 }
+
+func verifSmokeTime() {
+	c := int64(vUint32()) + 1_000_000
+	ttl := vUint32()
+	t0 := timeUnix(c)
+	t := t0.Add(timeSecond * timeDuration(ttl))
+	vAssert(t.Unix() == c+int64(ttl), "Add of whole seconds")
+	vAssert(!t.Before(t0), "not before")
+	vAssert(t0.Before(t) == (ttl > 0), "strictly after iff ttl > 0")
+	vReach("time")
+}
